@@ -244,7 +244,7 @@ def cases(draw, models=MODELS):
            "api": draw(st.sampled_from(["align", "align", "fit"])),
            # grey background only for the real-space models (ZNCC removes the mean, NCC pads with it); PCC/FSC work on
            # float32 spectra whose DC term would dominate the precision budget
-           "bg": draw(st.sampled_from([0.0, 0.0, 5.0, -2.0])) if (mask == "none" and model in ("ZNCC", "NCC")) else 0.0}
+           "bg": draw(st.sampled_from([0.0, 0.0, 5.0, -2.0, 40.0, 300.0])) if (mask == "none" and model in ("ZNCC", "NCC")) else 0.0}
     out.update(extra)
     return out
 
